@@ -17,3 +17,28 @@ theorem send_fail (s s1 : Sess) (m : BMsg) (h : s.send m = (s1, false)) : s1 = s
   exact h.symm
 
 end Pw
+
+namespace Pw
+
+/-- a write followed by "go on": the message was appended and nothing else changed -/
+theorem send_cont (s s' : Sess) (m : BMsg) (h : afterWrite (s.send m) = .cont s') :
+    s'.out = m :: s.out ∧ s'.ev = s.ev ∧ s'.inp = s.inp ∧ s'.stmts = s.stmts ∧
+    s'.portals = s.portals ∧ s'.discard = s.discard := by
+  cases hs : s.send m with
+  | mk s1 ok =>
+    rw [hs] at h
+    cases ok with
+    | false => simp [afterWrite] at h
+    | true =>
+      simp [afterWrite] at h
+      subst h
+      exact send_ok s s1 m hs
+
+/-- the failing-message path leaves the name maps alone -/
+theorem extendedError_cont (s s' : Sess) (e : Option Err) (h : extendedError s e = .cont s') :
+    s'.out = .error (errorBody (flatten e)) :: s.out ∧ s'.ev = s.ev ∧ s'.inp = s.inp ∧
+    s'.stmts = s.stmts ∧ s'.portals = s.portals ∧ s'.discard = true := by
+  unfold extendedError sendError at h
+  exact send_cont _ _ _ h
+
+end Pw
